@@ -19,6 +19,9 @@ pub struct Scn {
     pub trace: Vec<Timed>,
     /// which of the 16 switch combinations to run (bit 0 tcp, 1 http, 2 tls, 3 matcher)
     pub configs: Vec<u8>,
+    /// fault: the capture source ends before these frame indices and a new capture run starts on the same instances
+    #[serde(default)]
+    pub boundaries: Vec<usize>,
 }
 
 pub struct C20;
@@ -131,7 +134,8 @@ impl Prop for C20 {
             }
             Tier::Thorough => (0..16).collect(),
         };
-        Scn { cap: *r.pick(&[32usize, 100, 1000]), trace, configs }
+        let boundaries = if r.chance(1, 4) { (0..r.urange(1, 3)).map(|_| r.usize_below(trace.len() + 1)).collect() } else { vec![] };
+        Scn { cap: *r.pick(&[32usize, 100, 1000]), trace, configs, boundaries }
     }
 
     fn run(s: &Scn, st: &mut RunStats) -> Result<(), Violation> {
@@ -166,8 +170,17 @@ impl Prop for C20 {
             hcfg.with_db = m_on;
             let mut tcp = Sut::new(&tcfg).map_err(|e| Violation::new("harness-error", "", e))?;
             let mut http = Sut::new(&hcfg).map_err(|e| Violation::new("harness-error", "", e))?;
+            let mut crossed = false;
             for (i, p) in s.trace.iter().enumerate() {
                 clock::advance_to_ns(p.t);
+                #[cfg(not(huginn_net_verif_sched))]
+                if s.boundaries.contains(&i) {
+                    for a in [Some(&mut uni), uni_m.as_mut(), Some(&mut tcp), Some(&mut http)].into_iter().flatten() {
+                        a.capture_boundary().map_err(|e| Violation::new("harness-error", "", e))?;
+                    }
+                    st.fault("capture_source_ends_and_restarts");
+                    crossed = true;
+                }
                 st.evals += 1;
                 st.packets += 1;
                 let u = uni.deliver(&p.frame);
@@ -211,6 +224,13 @@ impl Prop for C20 {
                         _ => saw.0 = true,
                     }
                 }
+                // across a capture boundary the TCP analyzer starts a fresh timestamp tracker by design (its loop owns
+                // the tracker), so uptime fields are compared only within the first capture run
+                let u_all = u;
+                let u = if crossed { sut::PktOut { obs: u_all.obs.iter().filter(|o| !o.kind.ends_with("uptime")).cloned().collect(), err: u_all.err.clone() } } else { u_all.clone() };
+                if crossed {
+                    expect.retain(|o| !o.kind.ends_with("uptime"));
+                }
                 if u.obs != expect {
                     let missing: Vec<&str> = expect.iter().filter(|e| !u.obs.contains(e)).map(|e| e.kind.as_str()).collect();
                     let extra: Vec<&str> = u.obs.iter().filter(|e| !expect.contains(e)).map(|e| e.kind.as_str()).collect();
@@ -220,6 +240,7 @@ impl Prop for C20 {
                     return Err(Violation::new("field-mismatch", format!("{}{}", which, if m_on { "" } else { ":matcher-off" }), format!("frame {} cfg tcp={} http={} tls={} matcher={}: field {} differs\n  protocol analyzer: {}\n  unified analyzer:  {}", i, t_on, h_on, l_on, m_on, which, eo, uo)));
                 }
                 // matching off: qualities Disabled, raw signatures as with matching on
+                let u = u_all;
                 if let Some(um) = &um {
                     for o in &u.obs {
                         if o.text.contains("quality: Matched") || o.text.contains("quality: NotMatched") {
@@ -262,6 +283,11 @@ impl Prop for C20 {
                 out.push(x);
             }
         }
+        if !s.boundaries.is_empty() {
+            let mut x = s.clone();
+            x.boundaries.clear();
+            out.push(x);
+        }
         let n = s.trace.len();
         // drop halves, then single frames
         if n > 4 {
@@ -270,11 +296,17 @@ impl Prop for C20 {
             out.push(x);
             let mut y = s.clone();
             y.trace.drain(..n / 2);
+            y.boundaries = y.boundaries.iter().map(|b| b.saturating_sub(n / 2)).collect();
             out.push(y);
         }
         for i in (0..n).rev() {
             let mut x = s.clone();
             x.trace.remove(i);
+            for b in x.boundaries.iter_mut() {
+                if *b > i {
+                    *b -= 1;
+                }
+            }
             out.push(x);
         }
         out
